@@ -37,7 +37,7 @@ def cost_menu(basename):
     m = [["cgen", b0, 1.0, 1.01], ["cgen", b0, 0.5, 1.01], ["cgen", b1, 0.8, 0.99], ["cgen", 0, 0.4, vs],
          ["csgen", b0, 0.5, 0.1], ["csgen", b1, 0.3, -0.1], ["csgen", 0, 0.2, 0.05], ["csgen", 1, 0.2, 0.],
          ["cload", b0, 0.6, 0.2], ["load", b0, 1.5, 0.5, "P", 1., True], ["sgen", b0, 0.8, -0.2, 1., True],
-         ["shunt", b0, 0.1, -0.5, 1, 1.0, True], ["cgen", b0, 0.7, 1.01, False], ["csgen", b0, 0.4, 0.1, False], ["sn", 100.],
+         ["shunt", b0, 0.1, -0.5, 1, 1.0, True], ["cgen", b0, 0.7, 1.01, False], ["csgen", b0, 0.4, 0.1, False], ["pwlcost"], ["sn", 100.],
          ["set", "switch", 0, "closed", False], ["set", "ext_grid", 0, "vm_pu", 1.03]]
     if src == "T3":
         m += [["set", "trafo", 0, "tap_pos", 2], ["set", "trafo", 0, "tap_side", "lv"]]
@@ -54,6 +54,9 @@ def apply_dev(net, d):
     elif k == "csgen":
         bus, p, q = d[1:4]
         pp.create_sgen(net, bus, p, q, controllable=True, in_service=d[4] if len(d) > 4 else True, **LIM)
+    elif k == "pwlcost":       # the cost of the ext_grid as a piecewise linear function instead of a polynomial
+        net.poly_cost.drop(net.poly_cost.index, inplace=True)
+        pp.create_pwl_cost(net, 0, "ext_grid", [[-10., 0., 1.], [0., 10., 2.]])
     elif k == "cload":
         _, bus, p, q = d
         pp.create_load(net, bus, p, q, controllable=True, **LIM)
@@ -67,10 +70,7 @@ def build(case):
         net = na.base(COST_BASES[b])
         net.bus["min_vm_pu"] = 0.9
         net.bus["max_vm_pu"] = 1.1
-        if b == "R3c":
-            pp.create_poly_cost(net, 0, "ext_grid", 2.5)
-        else:
-            pp.create_pwl_cost(net, 0, "ext_grid", [[-10., 0., 1.], [0., 10., 2.]])
+        pp.create_poly_cost(net, 0, "ext_grid", 2.5)
     else:
         net = na.base(b)
     for d in case.get("devs", ()):
